@@ -567,5 +567,65 @@ func rulesC15(e *Engine, r *Report) {
 		d := e.findInstrs(fn, "defer call(stage.(*Stage).setCanReceive)(p0, false)", false)
 		r.Check(len(d) == 1 && d[0].Block().Index == 0, "R15.4", "stage.(*Stage).Stop: readiness cleared on every exit", e.Pos(fn.Pos()), "Stop no longer clears readiness by defer at entry", 1)
 	}
+	// ---------------------------------------------------------------- R15.5
+	r.Rule("R15.5", "one gatekeeper per source name: every entry written into a map[string]sts.GateKeeper - the table handleValidate and getGateKeeper look requests up in - is the result of the gatekeeper factory applied to the very string used as the key; the start-up loop that pre-populates it from the stage root converts the directory name back with the inverse of the factory's separator replacement and starts Recover on the gatekeeper it stored")
+	{
+		n := 0
+		for _, fn := range e.Funcs {
+			Instrs(fn, func(in ssa.Instruction) {
+				mu, ok := in.(*ssa.MapUpdate)
+				if !ok {
+					return
+				}
+				mt, ok := mu.Map.Type().Underlying().(*types.Map)
+				if !ok || e.typeShort(mt.Elem()) != "sts.GateKeeper" {
+					return
+				}
+				n++
+				key := e.Canon(mu.Key)
+				val := e.Canon(mu.Value)
+				okv := false
+				if c, isCall := mu.Value.(*ssa.Call); isCall && len(c.Call.Args) == 1 && !c.Call.IsInvoke() {
+					if sig, _ := c.Call.Value.Type().Underlying().(*types.Signature); sig != nil && sig.Params().Len() == 1 && sig.Results().Len() == 1 && e.typeShort(sig.Results().At(0).Type()) == "sts.GateKeeper" {
+						okv = e.Canon(c.Call.Args[0]) == key
+					}
+				}
+				r.Check(okv, "R15.5", e.ShortName(EnclosingTop(fn))+": the gatekeeper stored under a key was built for that key", e.InstrPos(in),
+					"a gatekeeper is filed under a name other than the source it was created for (requests for that source will not find it and a second gatekeeper is created on the same directories while the first is still recovering): key "+shorten(key)+" value "+shorten(val), 1, key, val)
+			})
+		}
+		r.Min("R15.5", "writes into gatekeeper tables", n, 2)
+		if fn := needFn(e, r, "R15.5", "main.(*serverApp).init"); fn != nil {
+			mus := e.findInstrs(fn, "mapupdate(make(map[string]sts.GateKeeper)[§] = §)", false)
+			r.Min("R15.5", "start-up writes into the gatekeeper table", len(mus), 1)
+			for _, in := range mus {
+				mu := in.(*ssa.MapUpdate)
+				key := e.Canon(mu.Key)
+				m := pat("call(strings.ReplaceAll)(invoke(os.DirEntry.Name)(§), «(.+)», «(.+)»)").FindStringSubmatch(key)
+				inverse := false
+				var fact string
+				if m != nil {
+					if c, isCall := mu.Value.(*ssa.Call); isCall {
+						if callee := c.Call.StaticCallee(); callee != nil {
+							rep := e.findInstrs(callee, "call(strings.ReplaceAll)(p0, §, §)", false)
+							for _, x := range rep {
+								a := x.(ssa.CallInstruction).Common().Args
+								from, to := strings.TrimPrefix(e.Canon(a[1]), "^"), strings.TrimPrefix(e.Canon(a[2]), "^")
+								fact = from + "→" + to
+								if from == m[2] && to == m[1] {
+									inverse = true
+								}
+							}
+						}
+					}
+				}
+				r.Check(inverse, "R15.5", "main.(*serverApp).init: directory name → source name is the inverse of the factory's source → directory replacement", e.InstrPos(in),
+					"the start-up loop does not map a stage directory back to the source name the factory would map onto it (key "+shorten(key)+", factory replaces "+fact+")", 1, key, fact)
+				rec := e.findInstrs(fn, "go invoke(sts.GateKeeper.Recover)("+e.Canon(mu.Value)+")", false)
+				r.Check(len(rec) == 1, "R15.5", "main.(*serverApp).init: Recover is started on the gatekeeper that was stored", e.InstrPos(in),
+					"the gatekeeper put into the table at start-up is not the one whose recovery is started", 1)
+			}
+		}
+	}
 	_ = sort.Strings
 }
